@@ -557,10 +557,11 @@ impl BroCatli {
         self.last_bytes[1] = (last_bytes >> 8) as u8;
         self.last_byte_sanitized = false;
         self.last_byte_bit_offset += 2;
-        if self.last_byte_bit_offset >= 8 {
-            self.last_byte_bit_offset -= 8;
+        if self.last_byte_bit_offset > 8 {
+            // only count a further byte if a bit of the marker actually spilled into it
             self.last_bytes_len += 1;
         }
+        self.last_byte_bit_offset %= 8;
     }
     pub fn finish(&mut self, out_bytes: &mut [u8], out_offset: &mut usize) -> BroCatliResult {
         if self.last_byte_sanitized && self.last_bytes_len != 0 {
